@@ -99,7 +99,7 @@ def minimal_reader(cfg: str, disk, files: list[str]) -> dict:
 
     env = dict(os.environ, PYTHONHASHSEED=ZygoteSet.hashseed_of(cfg), PYTHONPATH=str(core.VERIF),
                VERIF_REPO=str(core.REPO), PYTHONDONTWRITEBYTECODE="1")
-    proc = subprocess.run([core.PYTHON, "-m", "simverif.fresh_reader", cfg, *[str(disk / f) for f in files]],
+    proc = subprocess.run([*core.no_aslr_prefix(), core.PYTHON, "-m", "simverif.fresh_reader", cfg, *[str(disk / f) for f in files]],
                           env=env, cwd=str(core.VERIF), capture_output=True, text=True, timeout=900, check=False)
     if proc.returncode != 0 or not proc.stdout:
         raise HarnessError(f"minimal reader failed: {proc.stderr[-300:]}")
